@@ -479,10 +479,6 @@ package adt
 //@   arith bv
 //@   ensures result == (FeatureType(f & fTypeMask) == LetLabel)
 
-//@ func errors.Newf
-//@   assumed A-int: formats a positioned error
-//@   ensures result != nil
-
 // (P) C02/C05: a label is (index, type) packed without truncation: the type and
 // the index are recovered exactly for every index in range, and an index out of
 // range is an error, never a wrapped label
